@@ -158,7 +158,30 @@ def oracle_filter_seq(inp):
     return None
 
 
+def oracle_filter_keeps_header(inp):
+    """rx_filter only reads the request header: afterwards the object has the same fields and
+    encodes to the same bytes as before (transports re-encode the same header on every retry)"""
+    ipmb = _ipmb()
+    h, f = inp['h'], bytes.fromhex(inp['f'])
+    o = mk_req(h)
+    before = bytes(o.encode())
+    try:
+        ipmb.rx_filter(o, f, **inp.get('kw', {}))
+    except Exception:  # noqa
+        pass
+    got = [getattr(o, k) for k in FIELDS]
+    try:
+        after = bytes(o.encode())
+    except Exception as e:  # noqa
+        after = 'raises %s' % type(e).__name__
+    if got != list(h) or after != before:
+        return 'after rx_filter the request header is %s (was %s) and encodes to %s (was %s)' % (
+            got, list(h), after if isinstance(after, str) else after.hex(), before.hex())
+    return None
+
+
 ORACLES = {'frame': oracle_frame, 'filter': oracle_filter, 'frame_reuse': oracle_frame_reuse,
+           'filter_keeps_header': oracle_filter_keeps_header,
            'filter_seq': oracle_filter_seq}
 
 
@@ -263,6 +286,13 @@ def run(ctx):
         def filt(fr, o):
             r = attempt(lambda: ipmb.rx_filter(mk_req(h), fr, **dict(zip(OPTS, o))))
             return 2 if isinstance(r, Exception) else int(bool(r))
+        # the filter must not modify the request header it is given (match, corrupted and short frame)
+        for fr in (f, f[:3] + bytes([f[3] ^ 0x55]) + f[4:], f[:4]):
+            oracle('filter_keeps_header', {'h': h, 'f': fr.hex()}, 'rx_filter:modifies-request-header')
+            ho = mk_req(h)
+            attempt(lambda: ipmb.rx_filter(ho, fr))
+            r = attempt(lambda: ho.encode())
+            add('chk_req_enc %s %s' % (hl(h), exp_bytes(r)), ('req_enc-after-rx_filter', h, fr.hex()))
         for o in (all_opts if k < 4 else [dflt, rng.choice(all_opts)]):
             add('chk_filter %s %s %s %d' % (hl(h), C.c_hex(f), C.c_list([C.c_bool(x) for x in o]), filt(f, o)),
                 ('filter-match', h, f.hex(), o))
